@@ -14,6 +14,7 @@ from checks import keyblind_common as kc
 
 
 def run(ctx):
+    ctx.prove("KeyBlindProofs")   # unbounded (TLAPS) versions of the model-level invariants TLC checks below
     n, cases, ops, nops = kc.run(ctx, "ecdsa", "MC_KeyBlind")
     return ctx.finish({
         "traces_validated_against_impl": len(cases),
